@@ -372,8 +372,15 @@ func execLine(h *hist, line string) (out string) {
 		x := scalar.MontgomeryDomainFieldElement(parseL(a[1]))
 		y := scalar.MontgomeryDomainFieldElement(parseL(a[2]))
 		var o scalar.MontgomeryDomainFieldElement
-		scalar.CMove(&o, c, &x, &y)
-		return kv("r", showL(limbs(o)))
+		r := &o
+		switch aliasChoice(line, 3) { // out may be either operand
+		case 1:
+			r = &x
+		case 2:
+			r = &y
+		}
+		scalar.CMove(r, c, &x, &y)
+		return kv("r", showL(limbs(*r)))
 	// ---------------- Scalar API ----------------
 	case "SC.add":
 		return rvN(sc(parseL(a[0])).Add(scOpt(a[1])))
@@ -421,7 +428,19 @@ func execLine(h *hist, line string) (out string) {
 	case "SC.csel":
 		r := sc(parseL(a[0]))
 		c, _ := strconv.ParseUint(a[1], 16, 64)
-		err := r.CSelect(c, scOpt(a[2]), scOpt(a[3]))
+		u, v := scOpt(a[2]), scOpt(a[3])
+		// the receiver may be one of its own operands (then its prior value is that operand's)
+		switch aliasChoice(line, 3) {
+		case 1:
+			if u != nil && limbs(u.S) == limbs(r.S) {
+				r = u
+			}
+		case 2:
+			if v != nil && limbs(v.S) == limbs(r.S) {
+				r = v
+			}
+		}
+		err := r.CSelect(c, u, v)
 		return join(kv("e", errName(err)), kv("r", showL(limbs(r.S))))
 	case "SC.bits":
 		bits := sc(parseL(a[0])).Bits()
